@@ -3,7 +3,10 @@ package checks
 import (
 	"encoding/json"
 	"fmt"
+	"github.com/invopop/gobl/dsig"
 	"math"
+	"os"
+	"path/filepath"
 	"regexp"
 	"sort"
 	"strconv"
@@ -198,6 +201,8 @@ func c08edits(doc *jmut.Node) []c08edit {
 	return out
 }
 
+var c08key = dsig.NewES256Key()
+
 func withDoc(env *jmut.Node, doc *jmut.Node) []byte {
 	e := env.Clone()
 	e.Set("doc", doc)
@@ -323,6 +328,17 @@ func runC08(c *Ctx) {
 		c.R.Count("docs:"+it.Type, 1)
 	}
 
+	cliBin := filepath.Join(ev.Root(), "bin", "gobl")
+	if _, err := os.Stat(cliBin); err != nil {
+		cliBin = ""
+		c.R.Count("cli_binary_missing", 1)
+	}
+	cliTmp, _ := os.MkdirTemp("", "verif-c08-")
+	defer os.RemoveAll(cliTmp)
+	cliPub := filepath.Join(cliTmp, "pub.jwk")
+	if pb, err := json.Marshal(c08key.Public()); err == nil {
+		_ = os.WriteFile(cliPub, pb, 0o644)
+	}
 	c.Parallel(len(jobs), func(i int) {
 		j := jobs[i]
 		e := j.edit
@@ -382,6 +398,36 @@ func runC08(c *Ctx) {
 				c.R.Fail("undetected:reused-target:"+e.kind, fmt.Sprintf("%s: %s at %s is detected on a fresh decode but not when the edited envelope is decoded into a value that held the original", j.it.Rel, e.kind, e.path), wit)
 			}
 			c.R.Count("reused_target_decodes", 1)
+		}
+		// a sample through the other entry points that validate an envelope: the
+		// `gobl validate` and `gobl verify` processes (the latter on a signed copy
+		// whose header and signatures are left exactly as signed)
+		if i%23 == 0 && cliBin != "" {
+			f1 := filepath.Join(cliTmp, fmt.Sprintf("e-%d.json", i))
+			_ = os.WriteFile(f1, b, 0o644)
+			if out, err := runCmd(cliTmp, 60*time.Second, cliBin, "validate", f1); err == nil {
+				c.R.Fail("undetected:cli-validate:"+e.kind, fmt.Sprintf("%s: %s at %s is rejected by Envelope.Validate but `gobl validate` accepts it: %s", j.it.Rel, e.kind, e.path, trunc(out)), wit)
+			}
+			c.R.Count("cli_validate_runs", 1)
+			os.Remove(f1)
+			if se, err := gx.ParseEnvelope(j.it.Data); err == nil {
+				var serr error
+				if p4, _ := Safely(func() { serr = se.Sign(c08key) }); p4 == nil && serr == nil {
+					sb, _ := json.Marshal(se)
+					if sn, err := jmut.Parse(sb); err == nil {
+						f2 := filepath.Join(cliTmp, fmt.Sprintf("s-%d.json", i))
+						_ = os.WriteFile(f2, withDoc(sn, e.doc), 0o644)
+						if out, err := runCmd(cliTmp, 60*time.Second, cliBin, "verify", "-k", cliPub, f2); err == nil {
+							c.R.Fail("undetected:cli-verify:"+e.kind, fmt.Sprintf("%s signed, then %s at %s without touching header or signatures: `gobl verify` accepts it: %s", j.it.Rel, e.kind, e.path, trunc(out)), wit)
+						}
+						if out, err := runCmd(cliTmp, 60*time.Second, cliBin, "validate", f2); err == nil {
+							c.R.Fail("undetected:cli-validate-signed:"+e.kind, fmt.Sprintf("%s signed, then %s at %s: `gobl validate` accepts it: %s", j.it.Rel, e.kind, e.path, trunc(out)), wit)
+						}
+						c.R.Count("cli_verify_runs", 1)
+						os.Remove(f2)
+					}
+				}
+			}
 		}
 		key := gx.ErrKey(verr)
 		c.R.Count("detected_with_key:"+key, 1)
